@@ -279,4 +279,18 @@ theorem C17_helper_steps_bounded (ls : List Label) (s : St) (hs : accepts {} ls 
   rcases ownSteps_lt t ls {} s hs with h0 | h0 <;> omega
 
 
+/-- **No lock is left behind.** A helper thread that has finished (or was never started) holds
+neither the loop lock nor the creation lock: whoever holds one of them is a thread that still has
+steps to take (`C17_helpers_never_stuck`), so both locks are always released again. -/
+theorem C17_no_lock_left_behind (ls : List Label) (s : St) (hs : accepts {} ls = some s) (t : Nat)
+    (hd : (s.thr t).live = false) : (∀ l, s.holder l ≠ some t) ∧ s.createHolder ≠ some t := by
+  have hi := inv_reachable ls {} s inv_init hs
+  constructor
+  · intro l hl
+    have := hi.holderJust l t hl
+    cases hp : s.thr t <;> simp [hp, TPc.holdsLock, TPc.live] at this hd
+  · intro hc
+    have := hi.createJust t hc
+    cases hp : s.thr t <;> simp [hp, TPc.inCreate, TPc.live] at this hd
+
 end AiutiVerif.CrossLoop
